@@ -21,7 +21,9 @@ ENTRY = {
             "streams gkr / gkr_join / left_count (key columns: dense or sparse unique, duplicates with max-min+1 >= row count, narrow duplicates, negative, nullable, "
             "two values far apart; dependent or independent decoration columns; ORDER BY .. LIMIT), packjoin / packjoin_shadow (two- and three-column equi joins, second keys at "
             "2^k-2 .. 2^k+1, negative keys, first keys near i64::MAX/4, same column names in both tables, derived columns b+c / b*c / a+c re-using a base column's name), "
-            "packgroup / packgroup_shadow, eager (duplicated join keys, dual keys, nullable factors, SUM of products / sums / differences). Every statement runs unoptimized, "
+            "packgroup / packgroup_shadow, eager (duplicated join keys, dual keys, nullable factors, SUM of products / sums / differences), shared_semi (tag shape:shared-name-semi: joins of tables "
+            "sharing column names and self-joins through aliases under IN / NOT IN / EXISTS / NOT EXISTS on a qualified column of either input; the unoptimized plan cannot "
+            "run a subquery predicate, the reference answer is the plan with only SubqueryDecorrelation applied, tag ref_decorr). Every statement runs unoptimized, "
             "with the production optimizer (with and without statistics, and through ExecutionContext::sql) and with each statistics-driven rule alone; plans are exported. "
             "family SQL (shared generator, meta mode; two runs): optimized vs unoptimized over memory tables, and over Parquet files with NULL-free data (a nullable GROUP BY "
             "key over Parquet takes different aggregation paths: C21/C04); all strata but subqueries and grouping sets (the unoptimized engine cannot run IN/EXISTS and does not "
@@ -32,7 +34,7 @@ ENTRY = {
         "hand-written composition of the translated pieces into packJoinGate (the loop over the four bounds)",
         "the rewrite theorems are about Spec.run; that a rule's output is an instance of a proved rewrite is NOT checked per program (answers are compared instead)"],
     "assumptions": ["no arithmetic overflow / division by zero in generated statements", "LIMIT never truncates in the adversarial stream (no tie-dependent answers)"],
-    "min_tags": {"s:gkr": 10, "s:packjoin": 10, "s:packjoin_shadow": 3, "s:eager": 5, "s:left_count": 3, "fired:only:GroupKeyReduction": 5,
+    "min_tags": {"shape:shared-name-semi": 8, "s:gkr": 10, "s:packjoin": 10, "s:packjoin_shadow": 3, "s:eager": 5, "s:left_count": 3, "fired:only:GroupKeyReduction": 5,
                  "fired:only:PackedJoinKeys": 5, "fired:only:EagerAggregation": 2, "fired:only:JoinReorder": 10, "layout_pq": 80, "f:negative_key": 2},
     "explanation": "O: every configuration returns the unoptimized plan's answer (bag equality; Spec.sameAnswer in the SQL family). K (family C03): ExecutionContext::sql "
                    "answers like the production configuration, and the TRANSLATED gates evaluated on the real footer statistics predict whether GroupKeyReduction "
